@@ -394,6 +394,9 @@ func runC15(c *Ctx) {
 				}
 				real = append(real, rs)
 			}
+			if why := firstMatchFromMap(p, rl); why != "" {
+				real = append(real, why)
+			}
 			if len(real) == 0 {
 				r.Hold("C15.4", construct, pos, "order-insensitive loop body")
 			} else {
@@ -403,4 +406,105 @@ func runC15(c *Ctx) {
 	}
 	r.Floor("C15.4", 4)
 	_ = n
+}
+
+// firstMatchFromMap: the loop leaves early (break) and a value taken from the
+// iteration is used after it, while more than one key can satisfy the exit
+// condition: which entry is picked depends on the iteration order.
+func firstMatchFromMap(p *core.Program, rl rangeLoop) string {
+	header := rl.next.Block()
+	var breaks []core.Edge
+	for b := range rl.body {
+		for si, s := range b.Succs {
+			if rl.body[s] || s == header {
+				continue
+			}
+			// leaving through a return is judged by the return rule
+			if len(s.Instrs) > 0 {
+				if _, isRet := s.Instrs[len(s.Instrs)-1].(*ssa.Return); isRet && len(s.Instrs) <= 3 {
+					continue
+				}
+			}
+			breaks = append(breaks, core.Edge{From: b, Succ: si})
+		}
+	}
+	if len(breaks) == 0 {
+		return ""
+	}
+	// does iteration data escape the loop?
+	fromIteration := func(v ssa.Value) bool {
+		hit := false
+		core.Leaves(v, core.SliceOpts{ThroughCalls: true, StopAt: func(x ssa.Value) bool {
+			if x == ssa.Value(rl.next) || (rl.key != nil && x == rl.key) || (rl.val != nil && x == rl.val) {
+				hit = true
+				return true
+			}
+			return false
+		}})
+		return hit
+	}
+	escapes := false
+	check := func(v ssa.Value) {
+		if v == nil || v.Referrers() == nil {
+			return
+		}
+		for _, rr := range *v.Referrers() {
+			if b := rr.Block(); b != nil && !rl.body[b] && b != header {
+				escapes = true
+			}
+		}
+	}
+	check(rl.key)
+	check(rl.val)
+	for b := range rl.body {
+		for _, in := range b.Instrs {
+			if v, ok := in.(ssa.Value); ok && fromIteration(v) {
+				check(v)
+			}
+		}
+	}
+	// … or through a variable declared outside the loop
+	for b := range rl.body {
+		for _, in := range b.Instrs {
+			st, ok := in.(*ssa.Store)
+			if !ok {
+				continue
+			}
+			al, ok := st.Addr.(*ssa.Alloc)
+			if !ok || rl.body[al.Block()] {
+				continue
+			}
+			if fromIteration(st.Val) {
+				check(al)
+			}
+		}
+	}
+	if !escapes {
+		return ""
+	}
+	// a single equality test on the key: at most one entry can match
+	nKeyEq := 0
+	for b := range rl.body {
+		for _, in := range b.Instrs {
+			if cmp, ok := in.(*ssa.BinOp); ok && (cmp.Op == token.EQL || cmp.Op == token.NEQ) {
+				for _, side := range []ssa.Value{cmp.X, cmp.Y} {
+					keyOnly := false
+					core.Leaves(side, core.SliceOpts{StopAt: func(x ssa.Value) bool {
+						if rl.key != nil && x == rl.key {
+							keyOnly = true
+							return true
+						}
+						return false
+					}})
+					if keyOnly {
+						nKeyEq++
+					}
+				}
+			}
+		}
+	}
+	if nKeyEq == 1 {
+		return ""
+	}
+	return "the loop stops at the first entry that satisfies its condition (break at " + p.Pos(firstPos(breaks[0].From)) + ") and uses it afterwards, while several keys can satisfy it: which one is taken depends on map iteration order"
 }
